@@ -55,6 +55,25 @@ def instantiate(h, terms, cap=160, keep_quant=False):
     return out
 
 
+def ground_apps(fs, limit=600):
+    """ground applications of uninterpreted functions (arity > 0) occurring outside quantifier bodies"""
+    out, seen = [], set()
+    todo = list(fs)
+    while todo and len(out) < limit:
+        x = todo.pop()
+        i = x.get_id()
+        if i in seen:
+            continue
+        seen.add(i)
+        if z3.is_quantifier(x):
+            continue
+        if z3.is_app(x):
+            if x.decl().kind() == z3.Z3_OP_UNINTERPRETED and x.num_args() > 0 and not z3.is_array(x):
+                out.append(x)
+            todo.extend(x.children())
+    return out
+
+
 def array_consts(fs):
     out, visited = {}, set()
     todo = list(fs)
@@ -161,14 +180,14 @@ def ground_formula(f, pos, terms, cap=120, depth=0):
     return z3.BoolVal(True) if pos else z3.BoolVal(False)
 
 
-def ground_solver(assertions, timeout_ms):
+def ground_solver(assertions, timeout_ms, nscope=8, nterms=14, cap=120):
     """the finite-scope weakening of a VC given as a list of assertions (hypotheses and the negated goal)"""
     from .core import has_quant
     s = z3.Solver()
     s.set('timeout', timeout_ms)
     qf = [h for h in assertions if not has_quant(h)]
-    terms = index_terms(qf)
-    scope = terms[:8]
+    terms = index_terms(qf, limit=nterms)
+    scope = terms[:nscope]
     outside = z3.Int('fs!outside')
     for t in scope:
         s.add(outside != t)
@@ -181,7 +200,7 @@ def ground_solver(assertions, timeout_ms):
     for h in assertions:
         if has_quant(h):
             try:
-                s.add(ground_formula(h, True, terms))
+                s.add(ground_formula(h, True, terms, cap=cap))
             except Exception:
                 pass
         else:
@@ -315,7 +334,14 @@ def solve_one(args):
         try:
             s0 = z3.Solver()
             s0.from_string(text)
-            s = ground_solver(list(s0.assertions()), Z3_MS)
+            stages = [(4, 5, 30), (8, 14, 120)]
+            s = None
+            for (ns, nt, cp) in stages:
+                s = ground_solver(list(s0.assertions()), Z3_MS, ns, nt, cp)
+                r0 = s.check()
+                log.append((f'z3-5.1(api) ground-instances scope={ns}', str(r0), round(time.time() - t0, 3)))
+                if r0 == z3.sat:
+                    break
             for attempt in range(3):
                 r = s.check()
                 log.append(('z3-5.1(api) ground-instances', str(r), round(time.time() - t0, 3)))
@@ -336,6 +362,12 @@ def solve_one(args):
                                 block.append(c != m[d])
                         except Exception:
                             pass
+                # ... and every ground function application to the value the candidate gives it
+                for app in ground_apps(list(s0.assertions())):
+                    try:
+                        s2.add(app == m.eval(app, model_completion=True))
+                    except Exception:
+                        pass
                 r2 = s2.check()
                 log.append(('z3-5.1(api) validate-candidate', str(r2), round(time.time() - t0, 3)))
                 if r2 == z3.sat:
